@@ -2,7 +2,7 @@
    Statements only (copied from the lemma libraries); every proof is a bare
    `exact`; see the cited files in coq/proofs for the proofs. *)
 From Coq Require Import List NArith ZArith Bool Arith Sorting.Sorted Sorting.Permutation.
-From D2P Require Import Str Err Xml TableTypes Tables Fmt NumFmt Bullets Merge Collector Walk NumFmtFacts BulletsFacts PropGlue ShapeFacts FrameFacts SeqFacts.
+From D2P Require Import Str Err Xml TableTypes Tables Fmt NumFmt Bullets Merge Collector Walk NumFmtFacts BulletsFacts PropGlue ShapeFacts FrameFacts SeqFacts PyVal Source SourceBase SourceNum.
 Import ListNotations.
 Open Scope N_scope.
 
@@ -144,3 +144,59 @@ Theorem C08_counter_of_item_in_part :
   count_of (c_counters s') numId ilvl = spec_rev (items_rev (map par_fmt ks) []) numId ilvl.
 Proof. exact counter_of_nth_item. Qed.
 Print Assumptions C08_counter_of_item_in_part.
+
+(* TIE TO THE SOURCE TEXT (gen/Source.v is regenerated from /repo by tools/gen_source.py on every run): the ROMAN_SUBS literal *)
+Theorem C08_source_roman_subs :
+  S_ROMAN_SUBS = VList (map (fun p => VTuple [VStr (fst p); VStr (snd p)]) roman_subs).
+Proof. exact src_roman_subs. Qed.
+Print Assumptions C08_source_roman_subs.
+
+(* TIE TO THE SOURCE TEXT (gen/Source.v is regenerated from /repo by tools/gen_source.py on every run): numbering_formats.lower_letter as translated from the Python source (while loop with divmod) equals the model's lower_letter for EVERY integer, given fuel above the number of binary digits; so C08_letters_* speak about the source *)
+Theorem C08_source_lower_letter :
+  forall z fuel,
+  (N.size_nat (Z.to_N z) < fuel)%nat ->
+  S_lower_letter fuel (VInt z) = lift_str (lower_letter z).
+Proof. exact src_lower_letter. Qed.
+Print Assumptions C08_source_lower_letter.
+
+(* upper_letter likewise *)
+Theorem C08_source_upper_letter :
+  forall z fuel,
+  (N.size_nat (Z.to_N z) < fuel)%nat ->
+  S_upper_letter fuel (VInt z) = lift_str (upper_letter z).
+Proof. exact src_upper_letter. Qed.
+Print Assumptions C08_source_upper_letter.
+
+(* lower_roman (i * n, then the ROMAN_SUBS replacements in order) likewise, for every integer *)
+Theorem C08_source_lower_roman :
+  forall z, S_lower_roman (VInt z) = lift_str (lower_roman z).
+Proof. exact src_lower_roman. Qed.
+Print Assumptions C08_source_lower_roman.
+
+(* upper_roman likewise *)
+Theorem C08_source_upper_roman :
+  forall z, S_upper_roman (VInt z) = lift_str (upper_roman z).
+Proof. exact src_upper_roman. Qed.
+Print Assumptions C08_source_upper_roman.
+
+(* decimal likewise *)
+Theorem C08_source_decimal :
+  forall z, S_decimal (VInt z) = lift_str (decimal z).
+Proof. exact src_decimal. Qed.
+Print Assumptions C08_source_decimal.
+
+(* bullet likewise *)
+Theorem C08_source_bullet :
+  forall v z, S_bullet v = lift_str (bullet z).
+Proof. exact src_bullet. Qed.
+Print Assumptions C08_source_bullet.
+
+(* bullets_and_numbering._increment_list_counter as translated from the source (defaultdict += 1, comprehension over the keys, del in a loop) equals the model's counter step for every counter dictionary and level string: the counting rule C08_counter_spec is about the source *)
+Theorem C08_source_increment_list_counter :
+  forall d ilvl,
+  NoDup (map fst d) ->
+  S__increment_list_counter (enc_counts d) (VStr ilvl)
+  = Ok (VTuple [VInt (Z.of_N (snd (increment_list_counter d ilvl)));
+                enc_counts (fst (increment_list_counter d ilvl))]).
+Proof. exact src_increment_list_counter. Qed.
+Print Assumptions C08_source_increment_list_counter.
